@@ -14,6 +14,7 @@ pub mod c16;
 pub mod c17;
 pub mod c20;
 pub mod common;
+pub mod swarm;
 
 use crate::runner::{Erased, Wrap};
 
